@@ -62,7 +62,7 @@ class World:
         self.api_calls = 0
         self.fn_entries = 0
         self.faults = [dict(f) for f in cfg.get("faults", [])]
-        self.externals = cfg.get("externals", {})
+        self.externals = dict(cfg.get("externals") or {})
         self.backend = Backend(self, "arn:aws:lambda:sim:1:function:f:1/durable-execution/e/1",
                                cfg.get("input", {"k": 1}))
         self.entry_counts = {}
